@@ -95,7 +95,17 @@ def main():
         if a.replay:
             res = mod.replay(ctx, json.load(open(a.replay)))
         else:
-            res = mod.run(ctx)
+            try:
+                res = mod.run(ctx)
+            except lean.InfraError:
+                raise
+            except Exception as e:  # noqa
+                # the implementation behaved in a way the adapter cannot even drive (an operation of the stream raised where the unchanged
+                # library never does): the correspondence no longer checks; the search below gets its chance, and the trace is the replay
+                import traceback
+                res = core.Result()
+                broken.append({"kind": "correspondence", "stream": "adapter-exception", "error": "%s: %s" % (type(e).__name__, e),
+                               "trace": traceback.format_exc().splitlines()[-8:]})
         for d in res.disagreements[:1]:
             broken.append({"kind": "correspondence", "stream": d["stream"]})
 
@@ -104,10 +114,15 @@ def main():
         if broken and not res.violations and hasattr(mod, "search") and not a.replay:
             searched = True
             ctx.scale = 8
-            res2 = mod.search(ctx, broken, res)
-            res.violations.extend(res2.violations)
-            res.evaluations += res2.evaluations
-            res.nontrivial |= res2.nontrivial
+            try:
+                res2 = mod.search(ctx, broken, res)
+                res.violations.extend(res2.violations)
+                res.evaluations += res2.evaluations
+                res.nontrivial |= res2.nontrivial
+            except lean.InfraError:
+                raise
+            except Exception:  # noqa  (the same adapter failure again: reported as found above)
+                pass
 
         if os.environ.get("VERIF_DEBUG"):
             import collections
